@@ -359,17 +359,27 @@ func (ck *checker) failing(b *batch, u *unit, m *mismatch) {
 		f := &finding{sig: sig}
 		ck.shapeSeen[group] = f
 		ck.mu.Unlock()
-		sp, err := progFromSource("shape:"+s.Family, s.Src)
-		if err != nil {
-			ck.harness(err.Error())
-			return
-		}
-		// confirm on the shape alone (also what the replay will run)
-		ev := evalProg(sp, false)
-		var mm *mismatch
-		for i := range ev.Mism {
-			if ev.Mism[i].Kind == m.Kind {
-				mm = &ev.Mism[i]
+		// confirm on the shape alone, without the declarations it does not use
+		// (also what the replay will run); fall back to the full shape
+		var (
+			sp     *Prog
+			mm     *mismatch
+			minSrc string
+		)
+		for _, cand := range []string{pruneDecls(s.Src), s.Src} {
+			p1, err := progFromSource("shape:"+s.Family, cand)
+			if err != nil {
+				continue
+			}
+			ev := evalProg(p1, false)
+			for i := range ev.Mism {
+				if ev.Mism[i].Kind == m.Kind {
+					mm = &ev.Mism[i]
+					break
+				}
+			}
+			if mm != nil {
+				sp, minSrc = p1, cand
 				break
 			}
 		}
@@ -379,7 +389,7 @@ func (ck *checker) failing(b *batch, u *unit, m *mismatch) {
 		}
 		key := fmt.Sprintf("%s/%s:%s", s.Family, s.Cause, shortHash(s.Tmpl))
 		f.key = key
-		if ck.r.Violation(key, violDetail{Kind: "shape", Feature: s.Family + "/" + s.Cause, Mismatch: *mm, Source: s.Src, Prog: sp, FnName: sp.Fns[mm.Fn].Name, ShapeTag: s.Tag}) {
+		if ck.r.Violation(key, violDetail{Kind: "shape", Feature: s.Family + "/" + s.Cause, Mismatch: *mm, Source: minSrc, Prog: sp, FnName: sp.Fns[mm.Fn].Name, ShapeTag: s.Tag}) {
 			atomic.AddInt64(&ck.nViol, 1)
 		} else {
 			ck.mu.Lock()
